@@ -594,53 +594,6 @@ func trCmp(e ast.Expr, ints map[string]string, where string) string {
 	return "False"
 }
 
-// genTableCaps translates Extend / CanShrink / Shrink decisions of table.go.
-func genTableCaps(p *pkgFiles, out *strings.Builder) {
-	ints := map[string]string{"t.len": "len", "t.cap": "cap", "by": "by_", "minCapacity": "minCapacity", "required": "(len + by_)"}
-	// Extend: required := t.len + by; if t.cap >= required { return }; t.adjustCapacity(capPow2(required))
-	if fd := p.findFunc("table.go", "table", "Extend"); fd != nil && len(fd.Body.List) == 3 {
-		a, ok1 := fd.Body.List[0].(*ast.AssignStmt)
-		ifs, ok2 := fd.Body.List[1].(*ast.IfStmt)
-		if ok1 && ok2 && src(a) == "required := t.len + by" && isEarlyReturn(ifs.Body) && src(fd.Body.List[2]) == "t.adjustCapacity(capPow2(required))" {
-			fmt.Fprintf(out, "/-- `table.Extend`: the capacity is sufficient (no re-allocation) -/\ndef tableExtend_noop (len cap by_ : Nat) : Prop := %s\ninstance : ∀ a b c, Decidable (tableExtend_noop a b c) := fun _ _ _ => by unfold tableExtend_noop; exact inferInstance\n\n", trCmp(ifs.Cond, ints, "table.go:Extend"))
-		} else {
-			problem("table.go:table.Extend: unexpected shape")
-		}
-	} else {
-		problem("table.go:table.Extend: not found or unexpected shape")
-	}
-	// Shrink / CanShrink: target := max(capPow2(t.len), minCapacity)
-	for _, name := range []string{"Shrink", "CanShrink"} {
-		fd := p.findFunc("table.go", "table", name)
-		if fd == nil || len(fd.Body.List) < 2 {
-			problem("table.go:table.%s: not found", name)
-			continue
-		}
-		if src(fd.Body.List[0]) != "target := max(capPow2(t.len), minCapacity)" {
-			problem("table.go:table.%s: target is not max(capPow2(t.len), minCapacity): %s", name, src(fd.Body.List[0]))
-			continue
-		}
-		tints := map[string]string{"t.cap": "cap", "target": "target"}
-		switch name {
-		case "CanShrink":
-			r, ok := fd.Body.List[1].(*ast.ReturnStmt)
-			if !ok || len(r.Results) != 1 {
-				problem("table.go:table.CanShrink: unexpected shape")
-				continue
-			}
-			fmt.Fprintf(out, "/-- `table.CanShrink` given `target = max(capPow2(len), minCapacity)` -/\ndef tableCanShrink (cap target : Nat) : Prop := %s\ninstance : ∀ a b, Decidable (tableCanShrink a b) := fun _ _ => by unfold tableCanShrink; exact inferInstance\n\n", trCmp(r.Results[0], tints, "table.go:CanShrink"))
-		case "Shrink":
-			ifs, ok := fd.Body.List[1].(*ast.IfStmt)
-			if !ok || len(ifs.Body.List) != 1 || src(ifs.Body.List[0]) != "return false" || len(fd.Body.List) != 4 ||
-				src(fd.Body.List[2]) != "t.adjustCapacity(target)" || src(fd.Body.List[3]) != "return true" {
-				problem("table.go:table.Shrink: unexpected shape")
-				continue
-			}
-			fmt.Fprintf(out, "/-- `table.Shrink`: nothing to do, given `target = max(capPow2(len), minCapacity)` -/\ndef tableShrink_noop (cap target : Nat) : Prop := %s\ninstance : ∀ a b, Decidable (tableShrink_noop a b) := fun _ _ => by unfold tableShrink_noop; exact inferInstance\n\n", trCmp(ifs.Cond, tints, "table.go:Shrink"))
-		}
-	}
-}
-
 func genHeader(what, imports string) string {
 	return "/-\n  GENERATED by /verif/tools/extract from /repo/ecs — do not edit.\n  " + what + "\n-/\n" + imports + "\n\nnamespace Ark.Generated\nopen Ark\n\n"
 }
@@ -672,5 +625,4 @@ func genLogic(p *pkgFiles, files map[string]string) {
 	one("ObsReset", "T1: loop bound of observerManager.Reset.", "events.go:observerManager.Reset", genObserverReset)
 	one("Filter", "T1: filter.matches.", "filter.go:filter.matches", genFilterMatches)
 	one("ToTypes", "T1: the arithmetic of bitMask256.toTypes.", "mask256.go:toTypes", genToTypes)
-	one("TableCaps", "T1: capacity decisions of table.Extend / Shrink / CanShrink.", "table.go:capacities", genTableCaps)
 }
